@@ -1,4 +1,6 @@
-// T-str additions for P2 (`BlockStart::source_position_at`). Needs prelude/strings.rs (blen, lines_of).
+// T-str additions for P2 (`BlockStart::source_position_at`). Needs prelude/tstr_mod.rs (blen, lines_of;
+// included before `verus!`). prelude/strings.rs is NOT needed (its module-level `broadcast use` slows
+// the pairing lemmas down).
 //
 // A text is viewed as Seq<char> (vstd's view of str); std's slicing and `rfind` speak in *byte
 // offsets* of the UTF-8 encoding. The link between the two is kept abstract (uninterpreted
